@@ -32,7 +32,10 @@ def make_world():
     w = World()
     w.CT = []
     for k in range(NCT):
-        w.CT.append(type(f'CT{k}', (Component,), {'_verif_user': True, '__slots__': ()}))
+        ns = {'_verif_user': True, '__slots__': ()}
+        if k == NCT - 1:
+            ns['__len__'] = lambda self: 0          # a container-like component that is falsy (identity equality kept)
+        w.CT.append(type(f'CT{k}', (Component,), ns))
     K0 = type('K0', (Agent,), {'_verif_user': True})
     K1 = type('K1', (K0,), {})
     K2 = type('K2', (K0,), {})
@@ -174,6 +177,8 @@ def run_history(ops, props=None):
             continue
         elif kind == 'mk':
             _, name, ci, tag, cts = op
+            if tag is not None:
+                tag = int(str(tag))                   # a fresh int object (identity differs from equal constants)
             o = w.K[ci](name.split('#')[0], m) if tag is None else w.K[ci](name.split('#')[0], m, tag)
             w.objs[name] = o
             w.ocomps[name] = {}
@@ -254,6 +259,40 @@ def run_history(ops, props=None):
             except Exception as ex:
                 out.append(('C04', f'{where}: removing a present agent raised {type(ex).__name__}: {ex}'))
                 return out
+        elif kind == 'remove_alias':
+            # leaving through the deprecated camelCase alias must behave like remove_agent
+            aid = op[1]
+            k = w.cur
+            names = [n for n in w.resident[k] if w.objs[n].id == aid]
+            import warnings
+            try:
+                with warnings.catch_warnings():
+                    warnings.simplefilter('ignore')
+                    env.removeAgent(aid)
+                if names:
+                    w.resident[k].remove(names[0])
+                    w.opos.pop(names[0], None)
+                else:
+                    out.append(('C04', f'{where}: removal of unknown id accepted'))
+            except AgentNotFoundError:
+                if names:
+                    out.append(('C04', f'{where}: removal of a present agent failed'))
+            except Exception as ex:
+                out.append(('C04', f'{where}: removing a present agent raised {type(ex).__name__}: {ex}'))
+                out.append(('C03', f'{where}: removing a present agent raised {type(ex).__name__}: {ex}'))
+                return out
+        elif kind == 'envcls':
+            from ECAgent.Core import Environment
+            import ECAgent.Environments as E
+            base = {'plain': Environment, 'space': E.SpaceWorld, 'grid': E.GridWorld}[op[1]]
+            Sub = type('EnvSub', (base,), {})
+            Sub.tag = op[2]
+            args = {'plain': (m,), 'space': (m, 3.0, 3.0), 'grid': (m, 3, 3)}[op[1]]
+            e = Sub(*args)
+            if e.tag != op[2]:
+                out.append(('C20', f'{where}: environment of a class with default tag {op[2]} has tag {e.tag}'))
+            if base.tag == op[2] and op[2] != 0:
+                out.append(('C20', f'{where}: default tag of {base.__name__} changed through a subclass'))
         elif kind == 'get':
             aid, strict = op[1], op[2]
             k = w.cur
@@ -307,7 +346,7 @@ def run_history(ops, props=None):
             objs = [w.objs[n] for n in w.resident[k]]
             exp = [o for n, o in zip(w.resident[k], objs) if all(c in w.ocomps[n] for c in cts)
                    and (tag == 'none' or w.otag[n] == tag)]
-            kw = {} if tag == 'none' else {'tag': tag}
+            kw = {} if tag == 'none' else {'tag': int(str(tag))}
             before = monitor.fingerprint((env.agents, m.systems.component_pools))
             got = env.get_agents(*tmpl, **kw)
             if len(got) != len(exp) or any(a is not b for a, b in zip(got, exp)):
@@ -469,6 +508,17 @@ def small_histories(prop):
             ops += [_mk(f'p{i}', 0, None, (0,) if i % 2 else ()), ('add', f'p{i}') + p]
         ops += [('add', 'p0', 0, 0, 0), ('remove', 'p0'), ('remove', 'p1'), ('remove', 'p0')]
         yield ops
+    for kd in ('plain', 'space', 'grid'):
+        yield [('envcls', kd, 6), _mk('a', 0), ('envcls', kd, 0)]
+    # deprecated alias in every world kind
+    for kind, dims in (('plain', (0, 0, 0)), ('space', (4, 4, 0)), ('grid', (3, 3, 0)), ('discrete', (2, 2, 2))):
+        ops = [('world', kind) + dims + (False,)] if kind != 'plain' else []
+        yield ops + [_mk('a', 0, None, (0, 1)), _mk('b', 0, None, (0,)), ('add', 'a', 1, 1, 0) if kind != 'plain' else ('add', 'a'),
+                     ('add', 'b', 0, 0, 0) if kind != 'plain' else ('add', 'b'), ('remove_alias', 'a'), ('query', [0], 'none'),
+                     ('remove_alias', 'zz'), ('remove', 'b')]
+    # tags beyond the small-int cache, falsy components
+    yield [_mk('a', 0, 70001, (2,)), _mk('b', 0, 70001, (0, 2)), _mk('c', 0, 5, (2,)), ('add', 'a'), ('add', 'b'), ('add', 'c'),
+           ('query', [], 70001), ('query', [2], 'none'), ('query', [0, 2], 70001), ('query', [2], 5), ('remove', 'a'), ('remove', 'b')]
     # classes (C20): subclasses defined after the parent received class components / a default tag
     for parent in range(NK):
         yield [('cadd', parent, 0), ('ctag', parent, 4), ('subclass', parent), ('cadd', NK, 1), ('cadd', NK, 0),
@@ -496,7 +546,7 @@ def random_history(rng, prop):
             if n in made:
                 continue
             made.append(n)
-            ops.append(_mk(n, rng.randrange(NK), rng.choice([None, None, 0, 1, 3]),
+            ops.append(_mk(n, rng.randrange(NK), rng.choice([None, None, 0, 1, 3, 70001]),
                            rng.sample(range(NCT), rng.randint(0, NCT))))
         elif r < 0.5:
             n = rng.choice(made)
@@ -506,11 +556,11 @@ def random_history(rng, prop):
                 ops.append(('add', n, rng.randint(-1, k[1] + 1), rng.randint(-1, k[2] + 1) if k[2] else 0,
                             rng.randint(-1, k[3] + 1) if k[3] else 0))
         elif r < 0.65:
-            ops.append(('remove', rng.choice(['a', 'b', 'c', 'd', 'zz'])))
+            ops.append((rng.choice(['remove', 'remove', 'remove_alias']), rng.choice(['a', 'b', 'c', 'd', 'zz'])))
         elif r < 0.72:
             ops.append(('get', rng.choice(['a', 'b', 'zz']), rng.random() < 0.5))
         elif r < 0.85:
-            ops.append(('query', rng.sample(range(NCT), rng.randint(0, NCT)), rng.choice(['none', 'none', 0, 1, 3, 9])))
+            ops.append(('query', rng.sample(range(NCT), rng.randint(0, NCT)), rng.choice(['none', 'none', 0, 1, 3, 9, 70001])))
         elif r < 0.9 and prop == 'C20':
             ops.append((rng.choice(['cadd', 'cremove']), rng.randrange(NK), rng.randrange(NCT)))
         elif r < 0.95 and prop == 'C20':
